@@ -1199,6 +1199,46 @@ func rulePanics(c *Ctx) []Obligation {
 		}
 		o.add(Discharged, fname(e), "explicit panics reachable are documented ones", e.Pos(), true, "%d panic sites reachable", n)
 	}
+	// implicit: integer division / remainder by a divisor that may be zero, anywhere in the package
+	// (index and slice bounds are P-BOUNDS, type assertions T-TOKCONTENT, nil items P-NILGUARD)
+	ndiv := 0
+	for _, f := range c.allFuncs(c.Jen) {
+		if f.Blocks == nil {
+			continue
+		}
+		a := c.FA(f)
+		for _, b := range f.Blocks {
+			for _, in := range b.Instrs {
+				bo, ok := in.(*ssa.BinOp)
+				if !ok || (bo.Op != token.QUO && bo.Op != token.REM) {
+					continue
+				}
+				bt, ok := bo.Type().Underlying().(*types.Basic)
+				if !ok || bt.Info()&types.IsInteger == 0 {
+					continue
+				}
+				ndiv++
+				construct := fmt.Sprintf("integer division #%d", ndiv)
+				if k, isC := constInt(bo.Y); isC {
+					o.req(k != 0, fname(f), construct, bo.Pos(), "constant divisor %d", k)
+					continue
+				}
+				d := a.Desc(bo.Y)
+				F := a.FactsAt(b)
+				okDiv := F.Has("eq(0,"+d+")", false) || F.Has("lt(0,"+d+")", true)
+				if call, isCall := stripConv(bo.Y).(*ssa.Call); isCall {
+					if bi, isB := call.Call.Value.(*ssa.Builtin); isB && bi.Name() == "len" && len(call.Call.Args) == 1 {
+						x := a.Desc(call.Call.Args[0])
+						if F.Has("empty("+x+")", false) {
+							okDiv = true
+						}
+					}
+				}
+				o.req(okDiv, fname(f), construct, bo.Pos(), "divisor %s is not known to be non-zero at this point (facts %s): a division by zero panics", d, F)
+			}
+		}
+	}
+	o.add(Discharged, "jen", "integer divisions scanned", token.NoPos, true, "%d integer division / remainder operations in the package", ndiv)
 	return o.list
 }
 
